@@ -1,7 +1,7 @@
 """C02 - extrema are raw-signal extremes of narrowband half-waves."""
 import numpy as np
 
-from .. import attach, gen, monitors
+from .. import attach, gen, monitors, pipeline
 from ..runner import quiet
 
 PROP = 'C02'
@@ -22,6 +22,16 @@ def gen_case(rng, tier):
     sig, kind = gen.gen_signal(rng, fs, lo, hi, gen.duration(rng, lo, (0.6, 6.0)), fam)
     if rng.random() < 0.3:
         sig = -sig
+    if rng.random() < 0.12:
+        # raw A/D counts of a narrow integer type that saturate at the rails of the type (signed: both rails, unsigned: 0 and max)
+        x = np.asarray(sig, dtype=float)
+        x = x / (np.max(np.abs(x)) + 1e-300)
+        dt = [np.int16, np.uint16, np.int8, np.uint8][int(rng.integers(0, 4))]
+        info = np.iinfo(dt)
+        half = (float(info.max) - float(info.min)) / 2.0
+        mid = (float(info.max) + float(info.min)) / 2.0
+        sig = np.clip(np.round(mid + x * half * float(rng.choice([1.0, 1.3, 2.0]))), info.min, info.max).astype(dt)
+        kind = kind + '+' + np.dtype(dt).name
     fk = None
     r = rng.random()
     if r < 0.6:
@@ -36,7 +46,7 @@ def gen_case(rng, tier):
             boundary, kind = b, kind + '+b'
     return dict(sig=sig, fs=fs, f_range=(lo, hi), boundary=boundary,
                 first_extrema=[None, 'peak', 'trough'][int(rng.integers(0, 3))], filter_kwargs=fk,
-                pad=pad, family=kind)
+                pad=pad, family=kind, sig_view=[None, None, None, 'strided', 'readonly', 'reversed'][int(rng.integers(0, 6))])
 
 
 def one(sh, case, driver='generated'):
@@ -50,7 +60,7 @@ def one(sh, case, driver='generated'):
     res = None
     try:
         with quiet():
-            res = find_extrema(np.array(case['sig'], copy=True), case['fs'], tuple(case['f_range']), **kw)
+            res = find_extrema(pipeline.as_view(case['sig'], case.get('sig_view')), case['fs'], tuple(case['f_range']), **kw)
     except Exception as e:
         # totality inside the domain: the reference finds >= 2 closed half-waves of each kind
         try:
@@ -76,6 +86,8 @@ def one(sh, case, driver='generated'):
         (attach.COUNTS['C02:windows_offcentre'] - o0) > 0
     sh.note('family:' + str(case.get('family')))
     sh.note('pad=%s' % case['pad'])
+    sh.note('sig_view=%s' % case.get('sig_view'))
+    sh.note('dtype=%s' % np.asarray(case['sig']).dtype.name)
     if attach.COUNTS['C02:windows_with_ties'] - t0 > 0:
         sh.note('cases_with_tied_window')
     sh.case_done(case, nontrivial,
